@@ -1,6 +1,7 @@
 package main
 
 import (
+	"go/token"
 	"fmt"
 	"go/types"
 	"os"
@@ -31,6 +32,7 @@ type Engine struct {
 	broken    map[string]string // synthesised clause functions that no longer type-check
 	keySorts  *Sorts // only for typeKey computations that must be unit independent
 	dispatch    []*DispatchCheck
+	panics      map[*ssa.Function]bool
 	renamedBare map[string]string // functions under contract that were renamed: old bare name -> new bare name
 	renamedNew  map[string]string // new funcName -> old funcName (for baseline lookups)
 	renamedKey  map[string]string // the same by funcName: "saml.old" -> "saml.new", "(*saml.T).old" -> "saml.new"
@@ -52,7 +54,7 @@ func newEngine(l *Loaded) *Engine {
 	e := &Engine{L: l, contracts: map[string]*Contract{}, externs: map[string]*ExternContract{}, funcs: map[string]*ssa.Function{},
 		funcIDs: map[*ssa.Function]int{}, modsets: map[*ssa.Function]ModSet{}, modBusy: map[*ssa.Function]bool{}, wrap64: map[*ssa.Function]bool{},
 		keySorts: newSorts(), mapInv: map[string]string{}, accCache: map[string][]accessorImpl{}, typeInv: map[string]string{}, guards: map[string]string{},
-		renamedBare: map[string]string{}, renamedKey: map[string]string{}, renamedNew: map[string]string{}}
+		renamedBare: map[string]string{}, renamedKey: map[string]string{}, renamedNew: map[string]string{}, panics: map[*ssa.Function]bool{}}
 	for _, sp := range l.SSA {
 		if sp == nil {
 			continue
@@ -212,7 +214,7 @@ func (e *Engine) callMods(c *ssa.CallCommon, fr *frame) ModSet {
 				res[pn] = mt
 			}
 		case *ssa.Function:
-			ms = e.calleeMods(v)
+			ms = e.calleeModsAt(v, c)
 		case *ssa.MakeClosure:
 			ms = e.calleeMods(v.Fn.(*ssa.Function))
 		default:
@@ -253,6 +255,26 @@ func (e *Engine) callMods(c *ssa.CallCommon, fr *frame) ModSet {
 		}
 	}
 	return res
+}
+
+// calleeModsAt: like calleeMods, but the modelled functions of package slices modify what their predicate modifies
+// (nothing for Contains / Index).
+func (e *Engine) calleeModsAt(fn *ssa.Function, c *ssa.CallCommon) ModSet {
+	switch slicesFunc(fn) {
+	case "Contains", "Index":
+		return nil
+	case "ContainsFunc", "IndexFunc":
+		if len(c.Args) == 2 {
+			switch p := c.Args[1].(type) {
+			case *ssa.MakeClosure:
+				return e.calleeMods(p.Fn.(*ssa.Function))
+			case *ssa.Function:
+				return e.calleeMods(p)
+			}
+		}
+		return ModSet{"*": nil}
+	}
+	return e.calleeMods(fn)
 }
 
 func (e *Engine) calleeMods(fn *ssa.Function) ModSet {
@@ -319,7 +341,7 @@ func (e *Engine) modsetOf(fn *ssa.Function) ModSet {
 							add(pn, mt)
 						}
 					case *ssa.Function:
-						ms = e.calleeMods(v)
+						ms = e.calleeModsAt(v, c)
 					case *ssa.MakeClosure:
 						ms = e.calleeMods(v.Fn.(*ssa.Function))
 					}
@@ -529,6 +551,59 @@ func (e *Engine) debugAccessors(name string) {
 
 
 // paramFieldPath: addr = &param.f1.f2... (fields only) -> "f1.f2", param index.
+// capturedParam: v is a load of the cell a parameter was moved into because a function literal captures it, and
+// neither the function nor the literals assign to that variable again - so v is the parameter's value.
+func capturedParam(v ssa.Value) *ssa.Parameter {
+	ld, ok := v.(*ssa.UnOp)
+	if !ok || ld.Op != token.MUL {
+		return nil
+	}
+	cell, ok := ld.X.(*ssa.Alloc)
+	if !ok || cell.Referrers() == nil {
+		return nil
+	}
+	var param *ssa.Parameter
+	for _, r := range *cell.Referrers() {
+		switch x := r.(type) {
+		case *ssa.Store:
+			if x.Addr != ssa.Value(cell) {
+				return nil // the cell's address is stored somewhere
+			}
+			p, isParam := x.Val.(*ssa.Parameter)
+			if !isParam || param != nil {
+				return nil
+			}
+			param = p
+		case *ssa.UnOp, *ssa.DebugRef:
+		case *ssa.MakeClosure:
+			fn := x.Fn.(*ssa.Function)
+			for i, b := range x.Bindings {
+				if b != ssa.Value(cell) || i >= len(fn.FreeVars) {
+					continue
+				}
+				fv := fn.FreeVars[i]
+				if fv.Referrers() != nil {
+					for _, fr := range *fv.Referrers() {
+						switch y := fr.(type) {
+						case *ssa.UnOp, *ssa.DebugRef:
+						case *ssa.Store:
+							if y.Addr == ssa.Value(fv) {
+								return nil
+							}
+							return nil
+						default:
+							return nil
+						}
+					}
+				}
+			}
+		default:
+			return nil
+		}
+	}
+	return param
+}
+
 func paramFieldPath(fa *ssa.FieldAddr, fn *ssa.Function) (string, int, bool) {
 	var fields []string
 	var cur ssa.Value = fa
@@ -542,7 +617,10 @@ func paramFieldPath(fa *ssa.FieldAddr, fn *ssa.Function) (string, int, bool) {
 	}
 	p, ok := cur.(*ssa.Parameter)
 	if !ok {
-		return "", 0, false
+		p = capturedParam(cur)
+		if p == nil {
+			return "", 0, false
+		}
 	}
 	for i, q := range fn.Params {
 		if q == p {
